@@ -10,9 +10,12 @@ cd "$WT" && git checkout -q --detach "$(git -C /repo rev-parse HEAD)" && git che
 cp /repo/Cargo.lock "$WT/" 2>/dev/null
 if ! git apply "$D/patch.diff" 2>/dev/null; then git apply --3way "$D/patch.diff" >/dev/null 2>&1 || { echo "PATCH_DOES_NOT_APPLY"; exit 3; }; git reset -q; fi
 S=$(cargo test --workspace --no-fail-fast --offline 2>&1 | grep -E "^test result" | awk '{p+=$4; f+=$6} END {print p" passed "f" failed"}')
-mkdir -p rscel/tests; cp "$D/demo.rs" rscel/tests/demo.rs
-timeout 600 cargo test -p rscel --test demo --offline >/tmp/wt/demo_with.log 2>&1; W=$?
+DP=rscel/tests/demo.rs; PKG=rscel
+[ -f "$D/demo_path.txt" ] && DP=$(head -1 "$D/demo_path.txt" | tr -d ' \r\n')
+case "$DP" in extensions/to_sql/*) PKG=rscel-to-sql ;; wasm/*) PKG=$(grep -m1 '^name' wasm/Cargo.toml | sed 's/.*"\(.*\)".*/\1/') ;; esac
+mkdir -p "$(dirname $DP)"; cp "$D/demo.rs" "$DP"
+timeout 900 cargo test -p $PKG --test demo --offline >/tmp/wt/demo_with.log 2>&1; W=$?
 git checkout -q -- . 
-timeout 600 cargo test -p rscel --test demo --offline >/tmp/wt/demo_without.log 2>&1; WO=$?
-rm -f rscel/tests/demo.rs
+timeout 900 cargo test -p $PKG --test demo --offline >/tmp/wt/demo_without.log 2>&1; WO=$?
+rm -f "$DP"
 echo "SUITE_WITH_CHANGE=[$S] DEMO_WITH_CHANGE=$([ $W = 0 ] && echo pass || echo fail) DEMO_WITHOUT=$([ $WO = 0 ] && echo pass || echo fail)"
